@@ -383,7 +383,7 @@ func (w *sworld) stepSync(c int, rs []int, fault string, hold int, mut *mutation
 			defer cancel()
 			return w.kit.Service.ProcessPushPull(ctx, cloneMsg(msg))
 		}
-		if fault == "nosnap" {
+		if fault == "nosnap" || fault == "holdsnap" {
 			w.kit.Mongo.SetGate(func(c memmongo.CmdRecord) bool { return c.Coll == "-_-Snapshots" && c.Name == "find" })
 		}
 		resp, err := send()
@@ -398,6 +398,13 @@ func (w *sworld) stepSync(c int, rs []int, fault string, hold int, mut *mutation
 			w.kit.Mongo.ReleaseAll()
 			w.waitBackground()
 			w.kit.Mongo.FailFrom(0)
+		}
+		if fault == "holdsnap" {
+			// the background updater of this push stays blocked at its first command until `release`
+			for t := 0; t < 300 && len(w.kit.Mongo.Held()) == 0; t++ {
+				time.Sleep(time.Millisecond)
+			}
+			w.kit.Mongo.SetGate(nil)
 		}
 		time.Sleep(2 * time.Millisecond)
 		w.waitBackground()
@@ -472,6 +479,18 @@ func (w *sworld) applyPacks(rs []int, packs []*model.PushPullPack) []interface{}
 		posts = append(posts, o)
 	}
 	return posts
+}
+
+func (w *sworld) stepRelease() (J, J, bool) {
+	obs := J{}
+	hung := guarded(obs, func() {
+		obs["held"] = len(w.kit.Mongo.Held())
+		w.kit.Mongo.ReleaseAll()
+		time.Sleep(2 * time.Millisecond)
+		w.waitBackground()
+		w.notifs()
+	})
+	return J{"k": "release"}, obs, hung
 }
 
 func (w *sworld) stepApplyLate(hold int) (J, J, bool) {
